@@ -257,7 +257,7 @@ def check(ctx):
         ga = E.guarded_assigns(run, nm)
         # Plan.gather(output), or the frame-explicit Plan._gather(<frame>, output)
         gath = [(c_, v_) for c_, v_ in ga if isinstance(v_, ast.Call) and isinstance(v_.func, ast.Attribute) and not v_.keywords
-                and ((v_.func.attr == "gather" and len(v_.args) == 1) or (v_.func.attr == roles.frame_gather(m).name and len(v_.args) == 2))
+                and ((v_.func.attr == "gather" and len(v_.args) == 1) or (v_.func.attr in (roles.gather_names(m) - {"gather"}) and len(v_.args) == 2))
                 and is_name(v_.args[-1], "output")]
         if gath and nm != "redirected_output_node":
             nones = [(c_, v_) for c_, v_ in ga if isinstance(v_, ast.Constant) and v_.value is None]
